@@ -56,6 +56,14 @@ impl LspProject {
                     .collect());
             }
 
+            // The lexer counts columns and lengths in bytes. The protocol
+            // counts UTF-16 code units.
+            let contents = self
+                .wrapped
+                .find(&file_id)
+                .map(|source| source.as_string().to_owned())
+                .unwrap_or_default();
+
             // The conversion yields absolute positions. The protocol wants
             // each token relative to the token before it.
             let mut prev_line = 0;
@@ -63,7 +71,18 @@ impl LspProject {
             return Ok(result
                 .0
                 .into_iter()
-                .filter_map(|tok| LspTokenType(tok).into())
+                .filter_map(|tok| {
+                    let start = utf16_column(&contents, tok.span.start);
+                    let length = tok.text.encode_utf16().count() as u32;
+                    let tok: Option<SemanticToken> = LspTokenType(tok).into();
+                    tok.map(|mut tok| {
+                        if let Some(start) = start {
+                            tok.delta_start = start;
+                        }
+                        tok.length = length;
+                        tok
+                    })
+                })
                 .map(|mut tok: SemanticToken| {
                     let line = tok.delta_line;
                     let start = tok.delta_start;
@@ -273,6 +292,13 @@ impl From<LspTokenType> for Option<SemanticToken> {
             token_modifiers_bitset: 0,
         })
     }
+}
+
+/// Returns the position of the byte offset on its line in UTF-16 code units.
+fn utf16_column(contents: &str, offset: usize) -> Option<u32> {
+    let before = contents.get(..offset)?;
+    let line_start = before.rfind('\n').map(|pos| pos + 1).unwrap_or(0);
+    Some(before[line_start..].encode_utf16().count() as u32)
 }
 
 /// Convert diagnostic type into the LSP diagnostic type.
